@@ -13,7 +13,7 @@ from mc.ref.portgraph import PortGraph
 BOUNDS = {
     # max live nodes incl. root, max links, BFS depth, root usable as link endpoint, requested out counts
     "quick": dict(max_nodes=3, max_links=3, depth=5, root_links=False, req=(None, 3), inserts=("one", "reused")),
-    "thorough": dict(max_nodes=4, max_links=3, depth=5, root_links=True, req=(None, 3), inserts=("one", "dfg", "reused"), mixed="all"),
+    "thorough": dict(max_nodes=4, max_links=3, depth=5, root_links=True, req=(None, 3), inserts=("one", "dfg", "reused"), mixed="first"),  # mixed="all" at this depth is beyond 10M states
 }
 OFFS = (0, 1)
 
